@@ -373,8 +373,51 @@ def sources(seed, n, cfg=None, profile="auto", chunk=12):
                 continue
             seen.add(s["text"])
             count[kind] = count.get(kind, 0) + 1
+            if cfg.get("interface_chains", True) and s["rseed"] % 5 == 0:
+                t2 = interface_chain(s["text"], random.Random("%s|chain" % s["rseed"]))
+                if t2 is not None:
+                    s = dict(s, text=t2, tags=list(s.get("tags", [])) + ["interface-chain-with-rename"])
             out.append(s)
     return out
+
+
+def interface_chain(text, rnd, broken=False):
+    """Appends two schemas that pass an entity of `text` along a chain of interface clauses with a rename:
+         SCHEMA <top>; USE FROM <s> (<e> AS <nick>); END_SCHEMA;
+         SCHEMA <mid>; USE|REFERENCE FROM <top> (<nick>); ENTITY <u>; a : <nick>; END_ENTITY; END_SCHEMA;
+    (valid: a USE'd item belongs to the using schema and can be interfaced from it under its new name).  The schema names
+    are drawn so that the order in which the tools visit the schemas varies.  broken=True asks <top> for the ORIGINAL name,
+    which is not visible there: an unresolvable reference.  -> new text, or None when text has no schema-level entity."""
+    sc = scan(text)
+    if not sc.ok or not sc.schemas:
+        return None
+    cands = [(sch, e) for sch in sc.schemas for e in sch.entities]
+    if not cands:
+        return None
+    sch, ent = rnd.choice(cands)
+    used = set(sc.idents)
+
+    def fresh(stems):
+        for _ in range(50):
+            n = rnd.choice(stems) + rnd.choice(["", "_s", "_x", "1", "_sch"]) + (str(rnd.randrange(100)) if rnd.random() < 0.5 else "")
+            if n.lower() not in used:
+                used.add(n.lower())
+                return n
+        n = "zq%d" % rnd.randrange(10 ** 6)
+        used.add(n)
+        return n
+    stems = ["a", "b", "mid", "top", "zz", "m", "q", "chain", "k", "w", "part", "units", "r"]
+    top, mid = fresh(stems), fresh(stems)
+    nick, user, attr = fresh(["nick", "nickname", "nm", "x"]), fresh(["user", "holder", "u"]), fresh(["a", "ref", "r"])
+    kw2 = rnd.choice(["USE FROM", "USE FROM", "REFERENCE FROM"])
+    asked = ent.name if broken else nick
+    wrap = rnd.choice(["%s", "OPTIONAL %s", "LIST [1:?] OF %s", "SET OF %s"])
+    tail = ("\nSCHEMA %s;\nUSE FROM %s (%s AS %s);\nEND_SCHEMA;\n\nSCHEMA %s;\n%s %s (%s);\nENTITY %s;\n  %s : %s;\nEND_ENTITY;\nEND_SCHEMA;\n"
+            % (top, sch.name, ent.name, nick, mid, kw2, top, asked, user, attr, wrap % asked))
+    if rnd.random() < 0.5:
+        # the chain before the schema it starts from
+        return tail.lstrip("\n") + "\n" + text
+    return text.rstrip("\n") + "\n" + tail
 
 
 def shipped(repo, which="unitary"):
@@ -964,7 +1007,36 @@ def _b_w_indexing(ctx):
             [{"code": "WARN_INDEXING_MIXED", "args": []}], "index-select")
 
 
-for _n, _b in [("undefined-object", _b_undefined_object), ("undefined-attribute-in-select", _b_undefined_attr_select),
+def _b_index_non_aggregate(ctx):
+    """an index / sub-range qualifier on something that is not an aggregate: a select without any aggregate member (of entities,
+    of simple types, nested), an entity-valued attribute, a simple value"""
+    e1, e2, sel, sel2, ent, d = ctx.name("e"), ctx.name("e"), ctx.name("d"), ctx.name("d"), ctx.name("e"), ctx.name("d")
+    shape = ctx.rnd.choice(["select-of-entities", "select-of-simple", "nested-select", "entity", "simple"])
+    idx = ctx.rnd.choice(["[1]", "[1:2]", "[zi]"])
+    pre = "ENTITY %s;\nEND_ENTITY;\nENTITY %s;\nEND_ENTITY;\n" % (e1, e2)
+    if shape == "select-of-entities":
+        pre += "TYPE %s = SELECT (%s, %s);\nEND_TYPE;\n" % (sel, e1, e2)
+        at = sel
+    elif shape == "select-of-simple":
+        pre += "TYPE %s = REAL;\nEND_TYPE;\nTYPE %s = SELECT (%s, %s);\nEND_TYPE;\n" % (sel2, sel, sel2, e1)
+        at = sel
+    elif shape == "nested-select":
+        pre += "TYPE %s = SELECT (%s);\nEND_TYPE;\nTYPE %s = SELECT (%s, %s);\nEND_TYPE;\n" % (sel2, e1, sel, sel2, e2)
+        at = sel
+    elif shape == "entity":
+        at = e1
+    else:
+        at = ctx.rnd.choice(["REAL", "INTEGER", "BOOLEAN"])
+    where = ctx.rnd.choice(["derive", "where"])
+    body = "ENTITY %s;\n  zm : %s;\n  zi : INTEGER;\n" % (ent, at)
+    if where == "derive":
+        body += "DERIVE\n  %s : REAL := zm%s;\nEND_ENTITY;" % (d, idx)
+    else:
+        body += "WHERE\n  %s : zm%s > 0.0;\nEND_ENTITY;" % (d, idx)
+    return (pre + body, [{"code": "INDEXING_ILLEGAL", "args": []}], "index-" + shape)
+
+
+for _n, _b in [("index-non-aggregate", _b_index_non_aggregate), ("undefined-object", _b_undefined_object), ("undefined-attribute-in-select", _b_undefined_attr_select),
                ("attribute-of-aggregate", _b_attr_on_aggregate), ("attribute-of-non-entity", _b_attr_non_entity),
                ("enum-no-such-item", _b_enum_item), ("group-no-such-entity", _b_group_no_entity),
                ("group-unexpected-type", _b_group_unexpected), ("unlabelled-generic", _b_unlabelled),
@@ -1257,7 +1329,7 @@ def ref_cycle_snippet(rnd):
     """-> (label, declarations to put inside a schema, extra schemas text)"""
     k = rnd.choice([1, 1, 2, 2, 3])
     shape = rnd.choice(["constant", "constant", "constant", "derived", "type-rename", "type-aggregate", "type-select", "function",
-                        "entity-attr", "subtype", "interface", "inverse", "where"])
+                        "entity-attr", "subtype", "interface", "interface", "inverse", "where", "include"])
     extra = ""
     if shape == "constant":
         ns = _ring(rnd, "zc", k)
@@ -1310,12 +1382,21 @@ def ref_cycle_snippet(rnd):
         sat = "ze%d" % rnd.randrange(1000)
         decl = "".join("ENTITY %s SUBTYPE OF (%s);\n  a%d : INTEGER;\nEND_ENTITY;\n" % (ns[i], ns[(i + 1) % k2], i) for i in range(k2))
         decl += "ENTITY %s SUBTYPE OF (%s);\n  b : REAL;\nDERIVE\n  d : INTEGER := a0;\nEND_ENTITY;\n" % (sat, ", ".join(rnd.sample(ns, rnd.choice([1, min(2, k2)]))))
+    elif shape == "include":
+        # INCLUDE of existing files: the file itself (C06 substitutes the path), once or several times in a row
+        n = rnd.choice([1, 2, 5, 6, 7, 12])
+        decl = "".join("INCLUDE '@@SELF@@';\n" for _ in range(n))
     elif shape == "interface":
         ns = _ring(rnd, "zs", max(k, 2))
         k2 = len(ns)
         kw = rnd.choice(["USE FROM", "REFERENCE FROM"])
+        if rnd.random() < 0.4:
+            # ... plus a schema that asks one member of the ring for an item none of them has
+            extra_bad = "SCHEMA zq%d;\n%s %s (zz_no_such_item);\nEND_SCHEMA;\n" % (rnd.randrange(1000), rnd.choice(["USE FROM", "REFERENCE FROM"]), ns[0])
+        else:
+            extra_bad = ""
         extra = "".join("SCHEMA %s;\n%s %s%s;\nENTITY e%d;\nEND_ENTITY;\nEND_SCHEMA;\n" %
-                        (ns[i], kw, ns[(i + 1) % k2], rnd.choice(["", " (e%d)" % ((i + 1) % k2), " (e%d AS e%d)" % ((i + 1) % k2, i)]), i) for i in range(k2))
+                        (ns[i], kw, ns[(i + 1) % k2], rnd.choice(["", " (e%d)" % ((i + 1) % k2), " (e%d AS e%d)" % ((i + 1) % k2, i)]), i) for i in range(k2)) + extra_bad
         decl = "%s %s;\n" % (kw, ns[0])
     elif shape == "inverse":
         ns = _ring(rnd, "ze", max(k, 2))
